@@ -40,31 +40,30 @@ verif_harness! { c10_t4_slot_addr, 2, {
 
 // ---- shared device builder ----------------------------------------------------------------------------------
 const DEV_PAGES: usize = 3;
-const DEV_BYTES: usize = DEV_PAGES * PAGE;
 
-fn mk_dev(part_pages: [usize; 2]) -> (Arc<MemDev<DEV_BYTES>>, Vec<Arc<dyn Partition>>, Arc<dyn IoEngine>) {
-    let dev = Arc::new(MemDev::<DEV_BYTES> { mem: std::cell::UnsafeCell::new([0u8; DEV_BYTES]), writes: std::cell::Cell::new(0) });
+fn mk_dev(part_pages: [usize; 2]) -> (Arc<MemDev<DEV_PAGES>>, Vec<Arc<dyn Partition>>, Arc<dyn IoEngine>) {
+    let dev = Arc::new(MemDev::<DEV_PAGES>::zeroed());
     let mut parts: Vec<Arc<dyn Partition>> = Vec::with_capacity(2);
-    let mut bases = [0usize; 4];
+    let mut base_pages = [0usize; 4];
     let mut base = 0;
     let mut i = 0;
     while i < 2 {
         if part_pages[i] > 0 {
-            bases[i] = base;
-            parts.push(Arc::new(MemPartition { id: i as u32, base, size: part_pages[i] * PAGE}));
-            base += part_pages[i] * PAGE;
+            base_pages[i] = base;
+            parts.push(Arc::new(MemPartition { id: i as u32, base_page: base, size: part_pages[i] * PAGE }));
+            base += part_pages[i];
         }
         i += 1;
     }
-    let io: Arc<dyn IoEngine> = Arc::new(MemIo::<DEV_BYTES> { dev: dev.clone(), bases });
+    let io: Arc<dyn IoEngine> = Arc::new(MemIo::<DEV_PAGES> { dev: dev.clone(), base_pages, fail_read_at: None, reads: std::cell::Cell::new(0) });
     (dev, parts, io)
 }
 
-fn put(dev: &MemDev<DEV_BYTES>, global_slot: usize, hash: u64, seq: u64) {
-    let mem = unsafe { &mut *dev.mem.get() };
-    let at = global_slot * 16;
-    mem[at..at + 8].copy_from_slice(&hash.to_be_bytes());
-    mem[at + 8..at + 16].copy_from_slice(&seq.to_be_bytes());
+fn put(dev: &MemDev<DEV_PAGES>, global_slot: usize, hash: u64, seq: u64) {
+    let page = dev.page(global_slot / 256);
+    let at = (global_slot % 256) * 16;
+    page[at..at + 8].copy_from_slice(&hash.to_be_bytes());
+    page[at + 8..at + 16].copy_from_slice(&seq.to_be_bytes());
 }
 
 /// T1: the log image is all zero except the newest tombstone (symbolic hash/sequence) at the given global slot and
@@ -126,10 +125,10 @@ fn t3(part_pages: [usize; 2], newest_slot: usize) {
     let one = [t.clone()];
     block_on(log.append(one.iter()), 8).unwrap();
     // device image: the new tombstone sits in the next slot of the ring, the old one is intact
-    let mem = unsafe { &*dev.mem.get() };
     let next = (newest_slot + 1) % (pages * TombstoneLog::SLOTS_PER_PAGE);
     let rd = |slot: usize| -> (u64, u64) {
-        let at = slot * 16;
+        let mem = dev.page(slot / 256);
+        let at = (slot % 256) * 16;
         let mut a = [0u8; 8];
         a.copy_from_slice(&mem[at..at + 8]);
         let mut b = [0u8; 8];
@@ -160,6 +159,70 @@ t3h!(c10_t3_cycle_p0_s9, [2, 0], 9);
 t3h!(c10_t3_cycle_p0_s255, [2, 0], 255);
 t3h!(c10_t3_cycle_p1_s300, [2, 0], 300);
 
+/// T2: append addressing from an arbitrary tail.  The log object is built directly at a symbolic tail slot (what `open`
+/// computes is decided by T1; building the state directly avoids its 256-slots-per-page scan), then a batch of 1..=3
+/// symbolic tombstones is appended.  Oracle, on the device bytes after `append` returned (= "flushed"): tombstone i of
+/// the batch sits at ring slot (tail + i) mod capacity - also when the batch crosses a page boundary or wraps around -
+/// and no other slot of the log changed.
+fn t2(pages: usize, nbatch: usize, tail: usize) {
+    // the tail is concrete per harness (a symbolic offset into the 4 KiB page buffer is what makes CBMC's encoding
+    // explode); the tombstones are symbolic
+    let (dev, parts, io) = mk_dev([pages, 0]);
+    let cap = pages * TombstoneLog::SLOTS_PER_PAGE;
+    let (page, _) = TombstoneLog::calculate_slot_addr(pages, tail);
+    let buffer = block_on(PageBuffer::open(io.clone(), parts.clone(), page), 4).unwrap();
+    let log = TombstoneLog { inner: Arc::new(Mutex::new(TombstoneLogInner { buffer, slot: tail })), pages };
+    let ts: [Tombstone; 3] = std::array::from_fn(|_| Tombstone { hash: kani::any(), sequence: kani::any() });
+    block_on(log.append(ts.iter().take(nbatch)), 12).unwrap();
+    let rd = |slot: usize| -> (u64, u64) {
+        let mem = dev.page(slot / 256);
+        let at = (slot % 256) * 16;
+        let mut a = [0u8; 8];
+        a.copy_from_slice(&mem[at..at + 8]);
+        let mut b = [0u8; 8];
+        b.copy_from_slice(&mem[at + 8..at + 16]);
+        (u64::from_be_bytes(a), u64::from_be_bytes(b))
+    };
+    let mut i = 0;
+    while i < 3 {
+        if i < nbatch {
+            let at = (tail + i) % cap;
+            assert!(rd(at) == (ts[i].hash, ts[i].sequence), "C10-T2: a flushed tombstone is not on the device at its ring slot (lost at a page switch?)");
+        }
+        i += 1;
+    }
+    // a slot outside the batch is untouched (device was all zero)
+    let other: usize = kani::any();
+    kani::assume(other < cap);
+    let mut in_batch = false;
+    let mut i = 0;
+    while i < 3 {
+        if i < nbatch && other == (tail + i) % cap { in_batch = true; }
+        i += 1;
+    }
+    if !in_batch {
+        assert!(rd(other) == (0, 0), "C10-T2: append wrote outside the slots of its batch");
+    }
+    let inner = log.inner.try_lock().unwrap();
+    assert!(inner.slot == tail + nbatch, "C10-T2: tail not advanced by the batch size");
+    kani::cover!((tail % 256) + nbatch > 256, "opt: batch crosses a page boundary");
+    kani::cover!(true, "end reached");
+    std::mem::forget(inner);
+    std::mem::forget(log);
+}
+macro_rules! t2h {
+    ($name:ident, $pages:expr, $n:expr, $tail:expr) => {
+        verif_harness! { $name, 8, { t2($pages, $n, $tail); } }
+    };
+}
+// tails at the first page boundary and at the wrap-around of a 2-page log
+t2h!(c10_t2_append_2_at255, 2, 2, 255);
+t2h!(c10_t2_append_3_at254, 2, 3, 254);
+t2h!(c10_t2_append_3_at255, 2, 3, 255);
+t2h!(c10_t2_append_2_at256, 2, 2, 256);
+t2h!(c10_t2_append_2_at511_wrap, 2, 2, 511);
+t2h!(c10_t2_append_1_at700, 3, 1, 700);
+
 // C03-D4: Tombstone::read on 16 arbitrary bytes never panics and is the inverse of write.
 verif_harness! { c03_d4_tombstone_read, 18, {
     let b: [u8; 16] = kani::any();
@@ -170,3 +233,11 @@ verif_harness! { c03_d4_tombstone_read, 18, {
     while i < 16 { assert!(out[i] == b[i]); i += 1; }
     kani::cover!(true, "end reached");
 } }
+
+// native replay of counterexamples: bin/check writes the unit test Kani generated (`--concrete-playback=print`) into the
+// included file and runs `cargo kani playback`; the file is empty otherwise.
+#[allow(unused_imports, dead_code)]
+mod playback {
+    use super::*;
+    include!("/verif/harness/playback/foyer-storage/engine__block__tombstone__verif_kani.rs");
+}
